@@ -309,6 +309,21 @@ X_BitFwdList(e) ==
   /\ \A i \in 1..Len(e.r) : e.r[i].hz = e.a.hz /\ e.r[i].vz = e.a.vz /\ e.r[i].echo
   /\ Cardinality(AllPairs(e.r)) = SumLens(e.r)
   /\ AllPairs(e.r) = Exp_BitFwdList(e)
+\* Height ranges that are not on any binary lattice (decimal metres, feet).  The model cannot hold such bounds, so
+\* the harness only sizes the answer from the geometry: how many cells the voxel's height spans (lenLo..lenHi,
+\* with a cell of slack) and about which cell its middle lies in (midLo..midHi, clamped into the subdivision).
+\* Whatever the arithmetic, the cells must form one contiguous run inside 0..2^zoom-1 of that size and place.
+X_BitFwdFree(e) ==
+  /\ Ok(e)
+  /\ \A i \in 1..Len(e.r) : e.r[i].hz = e.a.hz /\ e.r[i].vz = e.a.vz /\ e.r[i].echo
+  /\ Cardinality(AllPairs(e.r)) = SumLens(e.r)
+  /\ LET K == {p[2] : p \in AllPairs(e.r)}
+         Q == {p[1] : p \in AllPairs(e.r)} IN
+       /\ K # {} /\ SetMax(K) - SetMin(K) + 1 = Cardinality(K)                 \* one contiguous run
+       /\ SetMin(K) >= 0 /\ (e.a.vz < 30 => SetMax(K) <= Pow2(e.a.vz) - 1)     \* inside the subdivision
+       /\ e.a.lenLo <= Cardinality(K) /\ Cardinality(K) <= e.a.lenHi
+       /\ \E k \in K : e.a.midLo <= k /\ k <= e.a.midHi
+       /\ AllPairs(e.r) = {<<q, k>> : q \in Q, k \in K}                         \* the same run under every quadkey
 \* high subdivision zooms (13..35): the driver gives the cell height instead of the range end
 Exp_BitFwdHi(e) ==
   {<<QuadOfBits(t[1], t[2]), k>> :
@@ -490,6 +505,7 @@ Explains(e) ==
       [] e.op = "TilesToSp"            -> X_TilesToSp(e)
       [] e.op = "BitFwd"               -> X_BitFwd(e)
       [] e.op = "BitFwdList"           -> X_BitFwdList(e)
+      [] e.op = "BitFwdFree"           -> X_BitFwdFree(e)
       [] e.op = "BitBack"              -> X_BitBack(e)
       [] e.op = "BitFwdHi"             -> X_BitFwdHi(e)
       [] e.op = "BitBackHi"            -> X_BitBackHi(e)
@@ -567,6 +583,7 @@ Expected(e) ==
     [] e.op = "TilesToSp"            -> IF TilesValid(e) THEN Exp_TilesToSp(e) ELSE "error, no partial result"
     [] e.op = "BitFwd"               -> Exp_BitFwd(e)
     [] e.op = "BitFwdList"           -> Exp_BitFwdList(e)
+    [] e.op = "BitFwdFree"           -> [cells |-> {p[2] : p \in AllPairs(e.r)}, lenLo |-> e.a.lenLo, lenHi |-> e.a.lenHi, midLo |-> e.a.midLo, midHi |-> e.a.midHi]
     [] e.op = "BitBack"              -> Exp_BitBack(e)
     [] e.op = "BitFwdHi"             -> Exp_BitFwdHi(e)
     [] e.op = "BitBackHi"            -> Exp_BitBackHi(e)
